@@ -172,6 +172,16 @@ CLAIMED = {
              "reason about text symbolically. Arbitrary host text and values outside the windows are outside the claim. Three fixed defects.",
         ref="§4 C20", technique="solver-driven exhaustive case split (CrossHair + z3) against reference range/URI semantics",
     ),
+    "C15": dict(
+        text="CONTROL-FLOW claim. Bounded symbolic execution (CrossHair + z3) of the real BaseCommand.entry_point, AsyncScript.run, Scanner.teardown, run_hook and "
+             "_db_insert/_db_finish_run_meta with a symbolic fault plan (exit kind at setup / main / teardown incl. sys.exit(n), sys.exit(text), connection / UDS errors, "
+             "other exceptions, Ctrl-C) and symbolic resource switches (artifacts, database, lock, hooks, failing pre / post hook): on every path the returned exit code "
+             "follows the documented mapping, run_meta and META.json carry it with an end time, the database run entry is completed exactly once with it before the "
+             "database is closed, log handlers are removed, the lock is released, hooks run exactly once each and a failing hook changes nothing.",
+        note="Behind recording stubs and therefore outside the claim: real files, zstd stream integrity, kernel flock, signals, the hook processes, sqlite, re-running a stored "
+             "config (rerun / C18). gallia.command.base is executed WITHOUT log stripping for this property. Two fixed defects.",
+        ref="§4 C15", technique="symbolic execution of the command lifecycle with a symbolic fault plan (CrossHair + z3)",
+    ),
     "C02": dict(
         text="Bounded symbolic execution (CrossHair + z3) of the real UDSResponse.parse_dynamic / from_pdu / pdu code: for every first byte "
              "0x00-0xFF and every total length in the stated bound, with all remaining bytes symbolic, every path is explored and the "
